@@ -22,6 +22,15 @@ Definition mk_cfg3 (oidc revoke_on_issue e3 : bool) : cfg :=
   mkCfg oidc (allowed_of_e3 e3) [Access; Refresh; IdTok] 300 600 [Access; Refresh; IdTok] 3600 300 43200 3600
         revoke_on_issue true.
 
+(* hr: the provider has no usage rule at all (neither in grant_config nor per client): every token gets the lifetime
+   of its token handler (code 600, access 3600, refresh 86400 in the harness configuration) and what it may mint is the
+   default of its class (AuthorizationCode.set_defaults / RefreshToken.set_defaults) *)
+Definition mk_cfg4 (oidc revoke_on_issue e3 hr : bool) : cfg :=
+  if hr then
+    mkCfg oidc (allowed_of_e3 e3) [Access; Refresh; IdTok] 600 3600 [Access; Refresh] 86400 300 43200 3600
+          revoke_on_issue true
+  else mk_cfg3 oidc revoke_on_issue e3.
+
 Definition opt_eqb {A} (e : A -> A -> bool) (x y : option A) : bool :=
   match x, y with Some a, Some b => e a b | None, None => true | _, _ => false end.
 Definition strs_eqb := list_eqb str_eqb.
@@ -64,7 +73,7 @@ Definition snap_eqb (a b : snap) : bool :=
   list_eqb grant_eqb (fst a) (fst b) && list_eqb (list_eqb itok_eqb) (snd a) (snd b).
 
 (* a case: configuration, the operations with the implementation's outcomes, the implementation's final state *)
-Definition hist := (bool * bool * bool * list (op * out) * snap)%type.
+Definition hist := (bool * bool * bool * bool * list (op * out) * snap)%type.
 Fixpoint outs_ok (c : cfg) (s : st) (tr : list (op * out)) : bool * st :=
   match tr with
   | [] => (true, s)
@@ -72,8 +81,8 @@ Fixpoint outs_ok (c : cfg) (s : st) (tr : list (op * out)) : bool * st :=
                    if out_eqb x y then outs_ok c s1 r else (false, s1)
   end.
 Definition chk_hist (h : hist) : bool :=
-  let '(oidc, roi, e3, tr, fin) := h in
-  let '(ok, s) := outs_ok (mk_cfg3 oidc roi e3) init tr in
+  let '(oidc, roi, e3, hr, tr, fin) := h in
+  let '(ok, s) := outs_ok (mk_cfg4 oidc roi e3 hr) init tr in
   ok && snap_eqb (snapshot s) fin.
 
 (* diagnostics: index of the first differing outcome and the model's outcome there, or the model's final state *)
@@ -84,8 +93,8 @@ Fixpoint first_diff (c : cfg) (s : st) (i : nat) (tr : list (op * out)) : option
                    if out_eqb x y then first_diff c s1 (S i) r else inl (Some (i, y))
   end.
 Definition diag_hist (h : hist) :=
-  let '(oidc, roi, e3, tr, fin) := h in
-  match first_diff (mk_cfg3 oidc roi e3) init 0 tr with
+  let '(oidc, roi, e3, hr, tr, fin) := h in
+  match first_diff (mk_cfg4 oidc roi e3 hr) init 0 tr with
   | inl d => inl d
   | inr s => inr (snapshot s)
   end.
